@@ -364,13 +364,32 @@ pub fn run_check(check: &dyn Check, opt: &Options) -> i32 {
     let mut reported = vec![];
     let mut known_hit = vec![];
     let _ = std::fs::create_dir_all(format!("{}/replays", opt.verif_dir));
-    if classes.len() > 12 {
-        println!("note: {} violation classes found; the first 12 are minimised and reported, the others are listed only:", classes.len());
-        for (c, _) in classes.iter().skip(12) {
-            println!("  unreported class: {c} ({} runs)", class_counts[c]);
+    // known findings first (matched on the rule and facts of the first occurrence; no minimisation needed)
+    let mut known_lines: BTreeMap<String, (u64, Vec<String>)> = BTreeMap::new();
+    let mut unknown: Vec<(&String, &&Found)> = vec![];
+    for (class, f) in classes.iter() {
+        if let Some(k) = matches_known(&known, id, &f.v) {
+            let key = format!("{} [{}{}]", k["description"].as_str().unwrap_or(""), k["rule"].as_str().unwrap_or(""), k["where"].as_object().map(|w| w.iter().map(|(a, b)| format!(" {a}={}", b.as_str().unwrap_or(""))).collect::<String>()).unwrap_or_default());
+            let e = known_lines.entry(key).or_insert((0, vec![]));
+            e.0 += class_counts[class];
+            e.1.push(class.clone());
+            known_hit.push(class.clone());
+        } else {
+            unknown.push((class, f));
         }
     }
-    for (class, f) in classes.iter().take(12) {
+    for (line, (cnt, _)) in &known_lines {
+        println!("KNOWN-FINDING: property={id} {line} ({cnt} runs)");
+    }
+    if unknown.len() > 12 {
+        println!("note: {} violation classes found; the first 12 are minimised and reported, the others are listed only:", unknown.len());
+        for (c, _) in unknown.iter().skip(12) {
+            println!("  unreported class: {c} ({} runs)", class_counts[*c]);
+        }
+    }
+    for (class, f) in unknown.iter().take(12) {
+        let class: &String = class;
+        let f: &Found = f;
         let ctx = RunCtx { tier: opt.tier, run: f.run, want_sample: false };
         let (min, tries) = shrink(check, &ctx, f.choices.clone(), class, opt.shrink_budget);
         let e = execute(check, &ctx, Choices::replay(min.clone()), true);
@@ -381,11 +400,6 @@ pub fn run_check(check: &dyn Check, opt: &Options) -> i32 {
                 return 2;
             }
         };
-        if let Some(k) = matches_known(&known, id, &v) {
-            println!("KNOWN-FINDING: property={id} {} [{}] ({} runs)", k["description"].as_str().unwrap_or(""), class, class_counts[class]);
-            known_hit.push(class.clone());
-            continue;
-        }
         let path = format!("{}/replays/{id}-{}-{}.json", opt.verif_dir, opt.seed, f.run);
         let doc = json!({
             "property": id, "seed": opt.seed, "run": f.run, "tier": opt.tier.name(),
